@@ -42,13 +42,31 @@ def short(t, n=160):
 
 
 # ------------------------------------------------------------------------ job API
+JOB_DEADLINE = {"quick": int(os.environ.get("VERIF_JOB_DEADLINE", "420")), "thorough": int(os.environ.get("VERIF_JOB_DEADLINE", "2400"))}
+_STREAM = None      # connection to the parent: partial results survive a worker that has to be killed
+
+
+class _StreamList(list):
+    def __init__(self, kind):
+        list.__init__(self)
+        self.kind = kind
+
+    def append(self, rec):
+        list.append(self, rec)
+        if _STREAM is not None:
+            try:
+                _STREAM.send((self.kind, rec))
+            except Exception:
+                pass
+
+
 class Job:
     """collects what one harness run established; lives in a worker process"""
 
     def __init__(self, name, tier):
         self.name, self.tier = name, tier
-        self.obligations = []     # dicts: name, verdict, secs
-        self.candidates = []      # dicts: oracle, args, why
+        self.obligations = _StreamList("ob")     # dicts: name, verdict, secs
+        self.candidates = _StreamList("cand")    # dicts: oracle, args, why
         self.samples = []
         self.stats = dict(paths=0, infeasible=0, truncated=0, unsupported=0, queries=0, solver_s=0.0,
                           reachable_paths=0, vacuous_paths=0)
@@ -57,6 +75,8 @@ class Job:
         self.assumptions = set()
         self.timeout_ms = 30000 if tier == "quick" else 120000
         self.unknowns = 0
+        self.t_start = time.time()
+        self.deadline_s = JOB_DEADLINE[tier]
 
     # -- exploration
     def explore(self, fn, max_paths=400, label=None):
@@ -101,7 +121,7 @@ class Job:
                     v, model, _ = ctx.solve(*extra, timeout_ms=self.timeout_ms)
                     verdict = {"sat": "sat", "unsat": "unsat"}.get(v, "unknown")
             else:
-                fast = self.unknowns >= 2          # budget: after two undecided obligations fail fast
+                fast = self.unknowns >= 2 or (time.time() - self.t_start) > 0.6 * self.deadline_s   # budget
                 verdict, model, _ = ctx.prove(term, timeout_ms=4000 if fast else self.timeout_ms, extra=extra,
                                               retry=not fast)
                 if verdict == "unknown":
@@ -169,6 +189,73 @@ def _run_job(spec):
     return out
 
 
+def _worker(spec, conn):
+    global _STREAM
+    _STREAM = conn
+    try:
+        out = _run_job(spec)
+        conn.send(("done", out))
+    except BaseException as e:
+        try:
+            conn.send(("done", dict(job=spec[2].get("_name", spec[1]), obligations=[dict(name="harness ran", verdict="error", secs=0.0)],
+                                    candidates=[], samples=[], stats={}, notes=["worker crashed: %r" % (e,)], bounds={},
+                                    assumptions=[], functions=[], wall_s=0.0)))
+        except Exception:
+            pass
+    finally:
+        conn.close()
+
+
+def _schedule(specs, nproc, deadline_s):
+    """run every job in its own forked process, at most nproc at a time, each under a wall-clock deadline;
+    a job that has to be killed keeps the obligations it streamed and gets one 'unknown' obligation"""
+    if nproc == 1 and not os.environ.get("VERIF_FORCE_FORK"):
+        return [_run_job(s) for s in specs]
+    ctxm = multiprocessing.get_context("fork")
+    pending = list(enumerate(specs))
+    running = {}
+    results = []
+    while pending or running:
+        while pending and len(running) < nproc:
+            i, spec = pending.pop(0)
+            parent, child = ctxm.Pipe(duplex=False)
+            p = ctxm.Process(target=_worker, args=(spec, child), daemon=True)
+            p.start()
+            child.close()
+            running[i] = dict(p=p, conn=parent, t0=time.time(), spec=spec, obs=[], cands=[], done=None)
+        time.sleep(0.02)
+        for i in list(running):
+            st = running[i]
+            try:
+                while st["conn"].poll():
+                    kind, rec = st["conn"].recv()
+                    if kind == "ob":
+                        st["obs"].append(rec)
+                    elif kind == "cand":
+                        st["cands"].append(rec)
+                    elif kind == "done":
+                        st["done"] = rec
+            except (EOFError, OSError):
+                if st["done"] is None and not st["p"].is_alive():
+                    st["done"] = "crashed"
+            name = st["spec"][2].get("_name", st["spec"][1])
+            if st["done"] is not None and st["done"] != "crashed":
+                results.append(st["done"])
+            elif st["done"] == "crashed" or time.time() - st["t0"] > deadline_s:
+                why = "worker died" if st["done"] == "crashed" else "job exceeded its %ds wall-clock deadline and was stopped" % deadline_s
+                if st["p"].is_alive():
+                    st["p"].kill()
+                results.append(dict(job=name, obligations=st["obs"] + [dict(name="job completes (%s)" % why, verdict="unknown", secs=0.0)],
+                                    candidates=st["cands"], samples=[], stats={}, notes=[name + ": " + why], bounds={},
+                                    assumptions=[], functions=[], wall_s=round(time.time() - st["t0"], 1)))
+            else:
+                continue
+            st["p"].join(timeout=1)
+            st["conn"].close()
+            del running[i]
+    return results
+
+
 # --------------------------------------------------------------------- replay
 def run_oracle(check_mod, oracle, args, timeout=600):
     """execute a concrete oracle of the check module against the plain spake2 package in a fresh interpreter"""
@@ -208,14 +295,7 @@ def main(check_module, argv=None):
         kw = dict(kwargs)
         specs.append((mod.__name__, fname, kw, tier))
     nproc = int(os.environ.get("VERIF_JOBS", "0") or 0) or min(16, max(1, len(specs)))
-    results = []
-    if nproc == 1 or len(specs) == 1:
-        results = [_run_job(s) for s in specs]
-    else:
-        ctxm = multiprocessing.get_context("fork")
-        with ctxm.Pool(nproc, maxtasksperchild=1) as pool:
-            for r in pool.imap_unordered(_run_job, specs, chunksize=1):
-                results.append(r)
+    results = _schedule(specs, nproc, JOB_DEADLINE[tier])
     results.sort(key=lambda r: r["job"])
 
     # ---- aggregate
